@@ -230,6 +230,14 @@ func (p *Proof) VerifyWithChallenge(pk *gabikeys.PublicKey, reconstructedChallen
 	if (*proof)(p).ProofResult("alpha").Cmp(Parameters.bTwoZk) > 0 {
 		return false
 	}
+	// C_r and C_u are bases of the relations that are verified: they have to be elements of
+	// the group. If one of them is zero modulo N (or not invertible) every reconstructed
+	// commitment is zero whatever the responses are, so that no witness would be needed.
+	for _, c := range []*big.Int{p.Cr, p.Cu} {
+		if c.Sign() <= 0 || c.Cmp(pk.N) >= 0 || new(big.Int).GCD(nil, nil, c, pk.N).Cmp(big.NewInt(1)) != 0 {
+			return false
+		}
+	}
 	acc, err := p.SignedAccumulator.UnmarshalVerify(pk)
 	if err != nil {
 		return false
